@@ -21,7 +21,7 @@ import (
 func init() {
 	register(&explore.Prop{
 		ID: "C19", Level: levelFE, Explorer: "E3 environment-answer enumerator",
-		Rule: "file-backed segments (small mixed; 257-doc three-block; 1025-doc two-doc-value-chunk) whose segment.Data reads go through a fault-injecting io.ReaderAt; warm-up prefix = every sequence of <=1 (quick) / <=2 (thorough) read operations on the small segment, one fewer on each larger one, drawn from an 11-operation menu (decides which caches are warm); then for the next operation X the storage fails at EVERY read index of X, persistently (every later read fails) or transiently (only that read); then EVERY follow-up operation of the menu runs, with the objects X left behind and with fresh objects; " +
+		Rule: "file-backed segments (small mixed; 257-doc three-block; 1025-doc two-doc-value-chunk) whose segment.Data reads go through a fault-injecting io.ReaderAt; warm-up prefix = every sequence of <=1 (quick) / <=2 (thorough) read operations on the small segment, one fewer on each larger one, drawn from a 15-operation menu (incl. three operations that step a long-lived postings / dictionary iterator) (decides which caches are warm); then for the next operation X the storage fails at EVERY read index of X, persistently (every later read fails) or transiently (only that read); then EVERY follow-up operation of the menu runs, with the objects X left behind and with fresh objects; " +
 			"oracle: X returns an error (what it delivered before is a prefix of the correct result), or an empty result, or the complete correct result; after X and after every follow-up the FST-cache mutex is free (a held mutex would block every later lookup), nothing panics; after a transient fault, follow-ups through fresh objects return the correct result or an error; distinct = (segment, prefix, X, read index, fault kind); non-trivial = the injected fault was actually hit",
 		Assumptions: []string{"the injector is installed by reflection into the struct of bluge_segment_api v0.2.0 (pinned in go.sum); harness only, ice untouched", "fail model: ReadAt returns (0, error)", "blocking is detected by the invariant 'mutex free between calls' (VerifMutexFree), not by timeouts; the 300 s per-case watchdog is a backstop"},
 		Budget:      qBudget, Run: runC19,
@@ -74,6 +74,8 @@ func faultData(ra io.ReaderAt, sz int) *segment.Data {
 type c19State struct {
 	seg  segment.Segment
 	dvr  segment.DocumentValueReader // long-lived reader shared by the DV operations
+	pi   segment.PostingsIterator    // long-lived iterator stepped by iterNext / iterAdvance
+	di   segment.DictionaryIterator  // long-lived dictionary iterator stepped by dictNext
 	last uint64
 }
 
@@ -158,6 +160,72 @@ func c19Menu(n uint64) []c19Op {
 		storedOp("stored(last)", lastDoc),
 		dvOp("docvalues(0)", first),
 		dvOp("docvalues(last)", lastDoc),
+		{"iterNext", func(st *c19State, emit func(string)) error {
+			if err := c19Iter(st); err != nil {
+				return err
+			}
+			p, err := st.pi.Next()
+			if err != nil {
+				return err
+			}
+			if p == nil {
+				emit("end")
+			} else {
+				emit(fmt.Sprint(obs.CopyPosting(p)))
+			}
+			return nil
+		}},
+		{"iterNext2", func(st *c19State, emit func(string)) error { // two steps: consumes a whole 2-document chunk
+			if err := c19Iter(st); err != nil {
+				return err
+			}
+			for k := 0; k < 2; k++ {
+				p, err := st.pi.Next()
+				if err != nil {
+					return err
+				}
+				if p == nil {
+					emit("end")
+				} else {
+					emit(fmt.Sprint(obs.CopyPosting(p)))
+				}
+			}
+			return nil
+		}},
+		{"iterAdvance", func(st *c19State, emit func(string)) error {
+			if err := c19Iter(st); err != nil {
+				return err
+			}
+			p, err := st.pi.Advance(st.last) // straight to the last document: skips across chunks
+			if err != nil {
+				return err
+			}
+			if p == nil {
+				emit("end")
+			} else {
+				emit(fmt.Sprint(obs.CopyPosting(p)))
+			}
+			return nil
+		}},
+		{"dictNext", func(st *c19State, emit func(string)) error {
+			if st.di == nil {
+				d, err := st.seg.Dictionary("a")
+				if err != nil {
+					return err
+				}
+				st.di = d.Iterator(nil, nil, nil)
+			}
+			e, err := st.di.Next()
+			if err != nil {
+				return err
+			}
+			if e == nil {
+				emit("end")
+			} else {
+				emit(fmt.Sprintf("%q:%d", e.Term(), e.Count()))
+			}
+			return nil
+		}},
 		{"docsMatching", func(st *c19State, emit func(string)) error {
 			bm, err := st.seg.DocsMatchingTerms([]segment.Term{pairT{"a", "x"}, pairT{"b", "t1"}, pairT{"_id", "f0"}})
 			if err != nil {
@@ -196,6 +264,32 @@ func c19Menu(n uint64) []c19Op {
 	}
 }
 
+// c19Iter creates the long-lived postings iterator of (a, x) on first use.
+func c19Iter(st *c19State) error {
+	if st.pi != nil {
+		return nil
+	}
+	d, err := st.seg.Dictionary("a")
+	if err != nil {
+		return err
+	}
+	pl, err := d.PostingsList([]byte("x"), nil, nil)
+	if err != nil {
+		return err
+	}
+	it, err := pl.Iterator(true, true, true, nil)
+	if err != nil {
+		return err
+	}
+	st.pi = it
+	return nil
+}
+
+// stepOps are operations that advance a long-lived cursor: what a call returns depends on the
+// calls before it, so their oracle is membership: every delivered item must be an item of the
+// complete correct enumeration (or "end") - a posting/entry of another term or document is not.
+var stepOps = map[string]string{"iterNext": "postings(a,x)", "iterNext2": "postings(a,x)", "iterAdvance": "postings(a,x)", "dictNext": "dict(a)"}
+
 type c19Result struct {
 	items []string
 	err   error
@@ -223,7 +317,9 @@ func c19Segments(thorough bool) (names []string, images [][]byte, err error) {
 		images = append(images, b)
 		return nil
 	}
-	small := []model.Doc{gen.MixDoc(2, "f", 0), gen.MixDoc(1, "f", 1), gen.MixDoc(9, "f", 2), gen.MixDoc(2, "f", 3)}
+	// term x of field a is in all six documents; with chunk size 2 its postings span three chunks
+	small := []model.Doc{gen.MixDoc(2, "f", 0), gen.MixDoc(2, "f", 1), gen.MixDoc(2, "f", 2), gen.MixDoc(2, "f", 3), gen.MixDoc(2, "f", 4), gen.MixDoc(2, "f", 5)}
+	small[2] = append(small[2], gen.MixDoc(9, "g", 2)[1])
 	small[1] = append(small[1], model.Field{N: "b", Len: 1, Terms: []model.Term{{T: "t1", Freq: 1}}, DV: true})
 	if err := mk("small", small, 2); err != nil {
 		return nil, nil, err
@@ -374,6 +470,26 @@ func c19Case(c *explore.Ctx, scope string, idx int64, cas string, open func() (*
 		ra.failFrom = ra.reads + ri
 	}
 	x := menu[xi]
+	memberOf := func(opName string, items []string) string {
+		full, isStep := stepOps[opName]
+		if !isStep {
+			return ""
+		}
+		set := map[string]bool{"end": true}
+		for mi, m := range menu {
+			if m.name == full {
+				for _, it := range correct[mi] {
+					set[it] = true
+				}
+			}
+		}
+		for _, it := range items {
+			if !set[it] {
+				return it
+			}
+		}
+		return ""
+	}
 	r := runOp(x, st)
 	if ra.hits > 0 {
 		c.Nontrivial()
@@ -384,7 +500,12 @@ func c19Case(c *explore.Ctx, scope string, idx int64, cas string, open func() (*
 		c.Violate(scope, idx, sigOf("C19", where, r.panic), r.panic, cas)
 		return
 	}
-	if r.err != nil {
+	if _, isStep := stepOps[x.name]; isStep {
+		if bad := memberOf(x.name, r.items); bad != "" {
+			c.Violate(scope, idx, "C19/"+where+"/foreign-item", fmt.Sprintf("delivered %q which is not an item of the correct enumeration (err=%v)", bad, r.err), cas)
+			return
+		}
+	} else if r.err != nil {
 		if !isPrefix(r.items, correct[xi]) {
 			c.Violate(scope, idx, "C19/"+where+"/delivered-not-a-prefix", fmt.Sprintf("delivered %q before the error, correct result %q", r.items, correct[xi]), cas)
 			return
@@ -419,6 +540,18 @@ func c19Case(c *explore.Ctx, scope string, idx int64, cas string, open func() (*
 			if !ice.VerifMutexFree(st.seg) {
 				c.Violate(scope, idx, "C19/"+fwhere+"/mutex-held", fmt.Sprintf("mutex held after follow-up %s", f.name), cas)
 				return
+			}
+			// a cursor that lived through a failed call is judged only on "no panic, not blocked" (the
+			// property speaks about the segment staying usable); fresh cursors on the same segment
+			// must deliver items of the correct enumeration once the storage is healthy again
+			if bad := memberOf(f.name, fr.items); bad != "" && fresh == 1 && transient {
+				c.Violate(scope, idx, "C19/"+fwhere+"/foreign-item", fmt.Sprintf("follow-up %s with fresh objects delivered %q which is not an item of the correct enumeration (err=%v)", f.name, bad, fr.err), cas)
+				return
+			} else if bad != "" {
+				c.Count("same_cursor_misaligned_after_failed_call")
+			}
+			if _, isStep := stepOps[f.name]; isStep {
+				continue
 			}
 			if transient && fresh == 1 && fr.err == nil && strings.Join(fr.items, "\x00") != strings.Join(correct[fi], "\x00") {
 				c.Violate(scope, idx, "C19/"+fwhere+"/wrong-after-transient-failure", fmt.Sprintf("storage is healthy again, fresh objects, yet %s returned %q instead of %q", f.name, fr.items, correct[fi]), cas)
